@@ -111,13 +111,15 @@ pub fn make_config(profile: &str, run_seed: u64, tier_thorough: bool) -> Config 
     let big = rng.chance(1, 400);
     // One run in 300 starts from a world with very many archetype tables (and is short).
     let many = !big && rng.chance(1, 300);
-    let len = if big || many { len.min(10) } else { len };
+    // One run in 8000 works on a huge world: more identifier slots than fit in 16 bits.
+    let huge = !big && !many && g::NC > 0 && rng.chance(1, 8000);
+    let len = if huge { len.min(6) } else if big || many { len.min(10) } else { len };
     Config {
         profile: profile.to_string(),
         nslots,
         len,
         weights: w,
-        batch_law: if big { 9 } else if many { 8 } else { rng.below(4) as u8 },
+        batch_law: if huge { 10 } else if big { 9 } else if many { 8 } else { rng.below(4) as u8 },
         max_live_hint: *rng.pick(&[8u16, 30, 120, 400]),
     }
 }
@@ -314,6 +316,22 @@ pub fn gen_history(cfg: &Config, run_seed: u64) -> Vec<Op> {
         out.push(Op::Extend { slot: 0, how: 0, site: site as u16, n: rng.range(4097, 9000) as u16, extra: 0, seed: rng.next_u64() });
     }
     let mut prefix = 0;
+    if cfg.batch_law == 10 {
+        // A huge world: more than 65536 identifier slots (two batches of one-component entities),
+        // a few removals, and a round trip in a token encoding.
+        let sites: Vec<usize> = (0..g::EXTEND_SITES.len()).filter(|s| g::EXTEND_SITES[*s].1.len() == 1).collect();
+        if !sites.is_empty() {
+            for _ in 0..2 {
+                out.push(Op::Extend { slot: 0, how: 0, site: sites[rng.usize_below(sites.len())] as u16, n: rng.range(33000, 40000) as u16, extra: 0, seed: rng.next_u64() });
+            }
+            for _ in 0..rng.range(0, 3) {
+                out.push(Op::Remove { slot: 0, pick: pick_live(&mut rng) });
+            }
+            let dst = if cfg.nslots >= 2 && rng.chance(1, 2) { 1 } else { 0 };
+            out.push(Op::RoundTrip { src: 0, dst, enc: *rng.pick(&[0u8, 1, 3]), in_place: false });
+            prefix = out.len();
+        }
+    }
     if cfg.batch_law == 8 && g::INSERT_SITES.len() > 70 {
         // A crowded world: one entity of each of 66..=128 distinct shapes (the archetype table
         // itself grows and rehashes; thresholds on the number of tables are crossed). With a
